@@ -16,8 +16,12 @@ All theorems are for every system size, every state and every parameter vector; 
 `… = .ok r` says "the Python call returns `r`" (it raises ZeroDivisionError for a zero
 concentration under a negative exponent — `numSysLinF_defined` shows when it does return).
 
-`rref_equil / rref_preserv = True` call sympy's row reduction (external): only the algebra behind
-them is proved (`row_ops_preserve_zero_set`); their behaviour is validated per instance by the harness.
+`rref_equil / rref_preserv = True`: sympy's row reduction (`pyneqsys.symbolic.linear_rref`) is external; its output
+`(rA, rb)` is a parameter (`Reduced`) of the model functions `numSys…CfgF`, which mirror what chempy does around it
+(`K' = exp(rb)`, reduced rows used as exponents / coefficients, `zip`).  The theorems `rref_zero_iff_*` assume
+`RowEquiv` — the reduced augmented system has the same row space as the original one, `(A'|b') = P·(A|b)` and
+`(A|b) = L·(A'|b')` — and the harness checks exactly that on the real `stoichs_constants(rref=True)` /
+`linear_rref` output of every generated instance (exact rational arithmetic, logs in coordinates over {ln p}).
 -/
 import ChemModel.Proofs.EqSys
 
@@ -92,6 +96,16 @@ theorem linrel_zero_iff (s : EqSystem) (hs : Homogeneous s) (prec : List Bool) (
         (∀ b ∈ compMat s, total b (List.zipWith (· * ·) m y) = total b (initConcsOf s p))) := by
   obtain ⟨m, hm, hlin⟩ := numSysLinRelF_ok h
   exact ⟨m, hm, lin_zero_iff s hs prec small _ p r hlin⟩
+
+/-- **Side condition of `linrel_zero_iff`.**  `upper_conc_bounds` is finite only for species that contain an element:
+    for a charge-only species (e.g. `e-`) Python yields `inf` and the model `.error "inf"`, so the hypothesis of
+    `linrel_zero_iff` cannot hold there.  When every species `HasElement` (a non-charge key, no zero count), the bounds
+    exist, and the call returns at every state whose scaled entries are non-zero. -/
+theorem linrel_defined (s : EqSystem) (hs : Homogeneous s) (hel : ∀ kv ∈ s.substances, HasElement kv.2)
+    (prec : List Bool) (small : ℝ) (y p : List ℝ) (hshape : shapeOk s y p = true) (hnr : 0 < s.nr) :
+    ∃ m, upperConcBounds s (initConcsOf s p) = .ok m ∧
+      ((∀ x ∈ List.zipWith (· * ·) m y, x ≠ 0) → ∃ r, numSysLinRelF s prec small y p = .ok r) :=
+  numSysLinRelF_defined hs hel prec small hshape hnr
 
 /-! ## Logarithmic variables (`NumSysLog`) -/
 
@@ -187,15 +201,112 @@ theorem equation_count_log (s : EqSystem) (prec : List Bool) (small : ℝ) (y p 
     stoichs_length hA, ksOf_length hshape, compMat_length]
   simp
 
-/-! ## The algebra behind `rref_equil` / `rref_preserv` -/
+/-! ## The constants are the reactions' own -/
 
-/-- **`row_ops_preserve_zero_set`.**  Left multiplication of a residual vector by an invertible matrix
-    (the row operations of a row reduction; rows that become identically `0 = 0` are then dropped)
-    does not change its zero set: `M·(B·y − b) = 0 ⇔ B·y − b = 0`. -/
-theorem row_ops_preserve_zero_set {m n : ℕ} (M : Matrix (Fin m) (Fin m) ℝ) (hM : IsUnit M.det)
-    (B : Matrix (Fin m) (Fin n) ℝ) (y : Fin n → ℝ) (b : Fin m → ℝ) :
-    M.mulVec (B.mulVec y - b) = 0 ↔ B.mulVec y - b = 0 :=
-  mulVec_eq_zero_iff_of_isUnit_det M hM _
+/-- **K is tied to `rxn.param`.**  `EqSystem.root/_solve` call the residual with
+    `params = init_concs ++ eq_constants()`, and `eq_constants()` (defaults) is `[rxn.param for rxn in rxns]`:
+    at that parameter vector the residual of a homogeneous system vanishes iff `Q_i(y)` equals the constant OF
+    REACTION i and the totals are those of `init_concs`.  (A change of `eq_constants` — e.g. one K inverted —
+    breaks `solverParams_split`, hence this theorem.) -/
+theorem lin_zero_iff_reaction_constants (s : EqSystem) (hs : Homogeneous s) (y c0 Ks r : List ℝ)
+    (hlen : c0.length = s.ns)
+    (h : numSysLinF s [] 0 y (solverParams c0 Ks) = .ok r) :
+    (∀ x ∈ r, x = 0) ↔
+      (∀ νK ∈ (netStoichs s).zip Ks, quotient y νK.1 = νK.2) ∧ (∀ b ∈ compMat s, total b y = total b c0) := by
+  have := lin_zero_iff s hs [] 0 y (solverParams c0 Ks) r h
+  rwa [(solverParams_split s c0 Ks hlen).1, (solverParams_split s c0 Ks hlen).2] at this
+
+/-! ## Row-reduced configurations (`rref_equil`, `rref_preserv`) -/
+
+/-- **`rref_zero_iff` (logarithmic formulation, every configuration).**  Let the external reducer's outputs satisfy
+    `RowEquiv` with what chempy handed to it (`(stoichs | ln ks)` when `rref_equil`, `(B | B·c₀)` when `rref_preserv`).
+    Then `NumSysLog.f` in configuration `(re, rp)` vanishes iff the ORIGINAL quotients of `exp y` equal their
+    constants and the totals agree — the same right-hand side as `log_zero_iff_general`. -/
+theorem rref_zero_iff_log (s : EqSystem) (prec : List Bool) (small : ℝ) (re rp : Bool) (redE redP : Reduced ℝ)
+    (y p r : List ℝ) (h : numSysLogCfgF s prec small re rp redE redP y p = .ok r)
+    (hK : ∀ k ∈ ksOf s prec small p, 0 < k)
+    (hE : re = true → ∀ A, stoichs s (nonPrecipRids s prec) = .ok A →
+      RowEquiv s.ns (intMat A) ((ksOf s prec small p).map Real.log) redE.rA redE.rb)
+    (hP : rp = true → RowEquiv s.ns (intMat (compMat s)) (totalsOf s p) redP.rA redP.rb) :
+    ∃ A, stoichs s (nonPrecipRids s prec) = .ok A ∧
+      ((∀ x ∈ r, x = 0) ↔
+        (∀ rk ∈ A.zip (ksOf s prec small p), quotient (y.map Real.exp) rk.1 = rk.2) ∧
+        (∀ b ∈ compMat s, total b (y.map Real.exp) = total b (initConcsOf s p))) := by
+  obtain ⟨A, fp, hA, _, hfp, hr⟩ := numSysLogCfgF_ok h
+  refine ⟨A, hA, ?_⟩
+  rw [hr, List.forall_mem_append,
+    equilLog_zero_iff A (ksOf s prec small p) y re redE hK (fun hre => hE hre A hA),
+    preserv_zero_iff hfp hP]
+
+/-- **`rref_zero_iff` (linear formulation, every configuration).**  As above for `NumSysLin.f`; when the equilibrium
+    block is row-reduced the reduced exponents are in general fractional, so the state and the constants must be
+    positive (Python: a negative base under a fractional exponent is complex/nan). -/
+theorem rref_zero_iff_lin (s : EqSystem) (prec : List Bool) (small : ℝ) (re rp : Bool) (redE redP : Reduced ℝ)
+    (y p r : List ℝ) (h : numSysLinCfgF s prec small re rp redE redP y p = .ok r)
+    (hy : re = true → ∀ x ∈ y, 0 < x) (hK : re = true → ∀ k ∈ ksOf s prec small p, 0 < k)
+    (hE : re = true → ∀ A, stoichs s (nonPrecipRids s prec) = .ok A →
+      RowEquiv s.ns (intMat A) ((ksOf s prec small p).map Real.log) redE.rA redE.rb)
+    (hP : rp = true → RowEquiv s.ns (intMat (compMat s)) (totalsOf s p) redP.rA redP.rb) :
+    ∃ A, stoichs s (nonPrecipRids s prec) = .ok A ∧
+      ((∀ x ∈ r, x = 0) ↔
+        (∀ rk ∈ A.zip (ksOf s prec small p), quotient y rk.1 = rk.2) ∧
+        (∀ b ∈ compMat s, total b y = total b (initConcsOf s p))) := by
+  obtain ⟨A, fp, hA, _, hfp, _, hr⟩ := numSysLinCfgF_ok h
+  refine ⟨A, hA, ?_⟩
+  rw [hr, List.forall_mem_append,
+    equilLin_zero_iff A (ksOf s prec small p) y re redE hK hy (fun hre => hE hre A hA),
+    preserv_zero_iff hfp hP]
+
+/-- squared variables in every configuration: `NumSysSquare.f` is `NumSysLin.f` at `c = y²` (so the iff above applies
+    with `c`; this is the statement the seeded mutant "fold the square into the exponents" violates for `re = true`) -/
+theorem rref_zero_iff_square (s : EqSystem) (prec : List Bool) (small : ℝ) (re rp : Bool) (redE redP : Reduced ℝ)
+    (y p r : List ℝ) (h : numSysSquareCfgF s prec small re rp redE redP y p = .ok r)
+    (hy : re = true → ∀ x ∈ y, x ≠ 0) (hK : re = true → ∀ k ∈ ksOf s prec small p, 0 < k)
+    (hE : re = true → ∀ A, stoichs s (nonPrecipRids s prec) = .ok A →
+      RowEquiv s.ns (intMat A) ((ksOf s prec small p).map Real.log) redE.rA redE.rb)
+    (hP : rp = true → RowEquiv s.ns (intMat (compMat s)) (totalsOf s p) redP.rA redP.rb) :
+    ∃ A, stoichs s (nonPrecipRids s prec) = .ok A ∧
+      ((∀ x ∈ r, x = 0) ↔
+        (∀ rk ∈ A.zip (ksOf s prec small p), quotient (y.map fun yi => yi * yi) rk.1 = rk.2) ∧
+        (∀ b ∈ compMat s, total b (y.map fun yi => yi * yi) = total b (initConcsOf s p))) :=
+  rref_zero_iff_lin s prec small re rp redE redP _ p r h
+    (fun hre x hx => by
+      simp only [List.mem_map] at hx
+      obtain ⟨yi, hyi, rfl⟩ := hx
+      exact mul_self_pos.mpr (hy hre yi hyi))
+    hK hE hP
+
+/-- success characterisation of the configurable calls: for a homogeneous system with at least one reaction and
+    well-shaped arguments they return (with an unreduced equilibrium block the state must have no zero entry; the
+    reduced blocks never raise in the model — Python's complex/nan results for non-positive bases are excluded by the
+    positivity hypotheses of `rref_zero_iff_lin`) -/
+theorem lin_cfg_defined (s : EqSystem) (hs : Homogeneous s) (prec : List Bool) (small : ℝ) (re rp : Bool)
+    (redE redP : Reduced ℝ) (y p : List ℝ) (hshape : shapeOk s y p = true) (hnr : 0 < s.nr)
+    (hy : re = false → ∀ x ∈ y, x ≠ 0) :
+    ∃ r, numSysLinCfgF s prec small re rp redE redP y p = .ok r :=
+  numSysLinCfgF_defined hs prec small re rp redE redP hshape hnr hy
+
+/-- **Equation count in every configuration**: one equation per row the reducer returned for a reduced block,
+    `nr` resp. the number of composition keys for an unreduced one. -/
+theorem equation_count_cfg (s : EqSystem) (prec : List Bool) (small : ℝ) (re rp : Bool) (redE redP : Reduced ℝ)
+    (y p r : List ℝ) (h : numSysLinCfgF s prec small re rp redE redP y p = .ok r)
+    (hE : redE.rA.length = redE.rb.length) (hP : redP.rA.length = redP.rb.length) :
+    r.length = (if re then redE.rA.length else s.nr) + (if rp then redP.rA.length else (compositionBalanceVectors s).2.length) := by
+  obtain ⟨A, fp, hA, hshape, hfp, _, hr⟩ := numSysLinCfgF_ok h
+  rw [hr, List.length_append, preservBlock_ok hfp]
+  cases re <;> cases rp <;>
+    simp [List.length_zipWith, stoichs_length hA, ksOf_length hshape, compMat_length, totalsOf, hE, hP]
+
+/-- **Reading of the count clause under `rref_equil`.**  A reaction whose row `(ν | ln K)` is a combination of the
+    others (linearly dependent, consistent constants) contributes no independent equation: dropping it does not change
+    the solution set of the log-linear system.  Hence the row-reduced equilibrium block consists of
+    `rank (A | ln K)` equations — fewer than `nr` for dependent reactions — and still characterises
+    `Q_i = K_i` for ALL reactions (`rref_zero_iff_*`).  That the reducer returns exactly `rank` independent rows is
+    checked per instance by the harness (exact). -/
+theorem dependent_reaction_adds_no_equation (A : List (List ℝ)) (b : List ℝ) (n : ℕ) (row : List ℝ) (β : ℝ)
+    (hlen : A.length = b.length) (hw : ∀ r ∈ A, r.length = n) (hc : IsRowCombo A b n row β) (y : List ℝ) :
+    Solves (row :: A) (β :: b) y ↔ Solves A b y :=
+  dependent_row_redundant hlen hw hc y
 
 /-! ## Non-vacuity: a concrete instance (water autoprotolysis, exact over ℚ) -/
 
@@ -216,6 +327,29 @@ example : Balanced water := by
   simp [netStoichs, netStoich, netCoeff, dget, water, List.lookup] at hν
   subst hν
   rcases hb with rfl | rfl | rfl <;> decide
+
+/-- the reducer hypothesis is satisfiable: `2 NO2 = N2O4` (row `(-2, 1 | β)`, `β = ln K`) and its reduced row echelon
+    form `(1, -1/2 | -β/2)` — the fractional-exponent situation of `rref_equil` — are row-equivalent -/
+example (β : ℝ) : RowEquiv 2 [[-2, 1]] [β] [[1, -1 / 2]] [-β / 2] where
+  len := rfl
+  len' := rfl
+  width := by simp
+  width' := by simp
+  fwd := by
+    intro rb hrb
+    simp at hrb
+    subst hrb
+    exact ⟨[-1 / 2], by norm_num [lincomb, List.replicate], by simp [dotR]; ring⟩
+  bwd := by
+    intro rb hrb
+    simp at hrb
+    subst hrb
+    exact ⟨[-2], by norm_num [lincomb, List.replicate], by simp [dotR]; ring⟩
+
+example : ∀ kv ∈ water.substances, HasElement kv.2 := by
+  intro kv hkv
+  simp [water] at hkv
+  rcases hkv with rfl | rfl | rfl <;> exact ⟨by decide, by decide⟩
 
 /-- at the exactly constructed equilibrium (c = (55, 1e-7, 1e-7), K = Q(c), c₀ = c − ξ·ν) all four equations vanish -/
 example : numSysLinF (α := Rat) water [] 0 [55, 1 / 10000000, 1 / 10000000]
